@@ -7,6 +7,7 @@
 package main
 
 import (
+	"net/url"
 	"encoding/json"
 	"fmt"
 	"os"
@@ -45,6 +46,8 @@ func newAdminWorld(users []string) *vAdminWorld {
 	vMust(err)
 	w.st.gitDB = db
 	w.st.Config.Base.AdminGroups = []string{vAdminGroup}
+	w.st.Config.Base.AutomationAdmins = []string{"auto"}
+	w.st.Config.Base.AutomationUsers = []string{"svc"}
 	w.st.isAdminCache = vConfiguredState(nil).isAdminCache // the cache object the configuration loader builds
 	return g
 }
@@ -140,6 +143,17 @@ func runC08Admin(t *testing.T, cases []map[string]interface{}, ev *vEvents) {
 				u := vStr(a, "user")
 				// a request that needs administrator rights: the list of all users
 				r := g.w.Do(vReq{Method: "GET", Path: usersPath, Cookies: map[string]string{authCookieName: g.w.mintCookie(u, AuthTypePassword|AuthTypeU2F, 0)}})
+				out["verdict"] = r.Status == 200
+				out["status"] = r.Status
+				out["panic"] = r.Panic != ""
+			case "mint":
+				// an automation administrator mints an automation certificate (its own right, not an administrator's)
+				u := vStr(a, "user")
+				form := url.Values{"identity": {"svc"}, "pubkey": {vB64u(vKeyByID("p256").der)}}
+				form.Add("requestor_netblock", "10.0.0.0/8")
+				form.Add("target_netblock", "192.168.0.0/24")
+				r := g.w.Do(vReq{Method: "POST", Path: getRoleRequestingPath, Form: form,
+					Cookies: map[string]string{authCookieName: g.w.mintCookie(u, AuthTypePassword|AuthTypeU2F, 0)}})
 				out["verdict"] = r.Status == 200
 				out["status"] = r.Status
 				out["panic"] = r.Panic != ""
